@@ -11,15 +11,15 @@ E3 = "stateless model checking of thread interleavings of the real client under 
 CHECKS = {
     "C01": dict(engine="E1", technique=E1,
                 text="every history over the alphabet, of any length, conforms to the key->item map (closure of the reachable state space), on both SDK adapters",
-                note="bounded alphabet (2-3 keys per schema, string keys and number sort keys that are neighbours beyond float64 precision, fixed payloads incl. a nested document, a type-changing update and rejected writes on stored and absent keys); trusted: reference model; reflective state hash used only for de-duplication",
+                note="bounded alphabet (2-3 keys per schema, string keys, number sort keys that are neighbours beyond float64 precision and composite keys that an incomplete escaping of the separator would merge, fixed payloads incl. a nested document, a type-changing update and rejected writes on stored and absent keys); trusted: reference model; reflective state hash used only for de-duplication",
                 ref="DESIGN.md 3/C01"),
     "C03": dict(engine="E1", technique=E1,
                 text="every history of index-affecting writes over the alphabet (closure) keeps every secondary index equal to the sparse view of the base table, on both SDK adapters and five index configurations",
-                note="bounded alphabet (2-3 keys, two index key values; GSI hash / GSI hash+range / GSI inverted (range key, hash key) / GSI on the table range key next to a GSI on g / two LSIs; UpdateTable create-delete of a second GSI); trusted: reference model",
+                note="bounded alphabet (2-3 keys, two index key values; GSI hash / GSI hash+range / GSI inverted (range key, hash key) / GSI on the table range key next to a GSI on g / two LSIs; items carry a nested document; an item ill-typed for a GSI that is created later; UpdateTable create-delete of a second GSI); trusted: reference model",
                 ref="DESIGN.md 3/C03"),
     "C05": dict(engine="E1", technique=E1,
                 text="in every reachable combination of target and bystander items, every conditional Put/Update/Delete of the menu succeeds iff the reference evaluation of the condition on the target item is true, and a refused write changes nothing observable",
-                note="bounded alphabet (2-3 keys, 7-9 conditions incl. one with two name placeholders; DeleteItem with either return option alone; key schemas H(S), HR(S,N) with 19-digit neighbour sort keys, HR(S,S) with keys sharing the partition); ReturnValuesOnConditionCheckFailure only exercised through SDK v2 (the v1 request type has no such field)",
+                note="bounded alphabet (2-3 keys, 7-9 conditions incl. one with two name placeholders; DeleteItem with either return option alone; key schemas H(S), HR(S,N) with 19-digit neighbour sort keys, HR(S,S) with a hash key ending in a backslash next to keys containing dots); ReturnValuesOnConditionCheckFailure only exercised through SDK v2 (the v1 request type has no such field)",
                 ref="DESIGN.md 3/C05"),
     "C08": dict(engine="E1", technique=E1,
                 text="in every reachable state, every request of the failing-request menu that the implementation rejects leaves the complete observation equal to the unchanged model, and the successor state keeps conforming in all further histories",
@@ -27,19 +27,19 @@ CHECKS = {
                 ref="DESIGN.md 3/C08"),
     "C13": dict(engine="E1", technique="bounded-exhaustive enumeration of all ordered pairs of distinct keys over separator-carrying component alphabets (each pair a fixed history on the real client against the reference model), a bulk pass over every key of a generated component alphabet in one table, plus explicit-state BFS over key-changing updates and malformed-key requests (single and batch)",
                 text="no two distinct keys of the alphabets collide, every malformed key is rejected with a validation error and no change, and no update leaves an item whose key attributes differ from its addressing key - on everything enumerated, with the three recorded findings",
-                note="bulk pass: all strings of length 1..2 (hash-only 1..3; thorough 1..4) over the characters a . \\ % | / : # as key components, 5 184 composite keys in one table; component alphabets of the pair histories: 16 (34) strings with '.', '%' directives, blanks, case; 9 numbers, 9 binaries incl. bytes below 0x10; 4 schemas; identity of numeric keys by value is C12's",
+                note="bulk pass: all strings of length 1..2 (hash-only 1..3; thorough 1..4) over the characters a . \\ % | / : # as key components, 5 184 composite keys in one table; component alphabets of the pair histories: 16 (34) strings with '.', '%' directives, blanks, case; 9 numbers, 9 binaries incl. bytes below 0x10; 5 schemas incl. HR(B,B) with the bytes of the separator, a blank and brackets; identity of numeric keys by value is C12's",
                 ref="DESIGN.md 3/C13"),
     "C15": dict(engine="E1", technique=E1,
                 text="every history of failure toggles and data operations over the alphabet (closure): configured error class while active, no read-visible change, lock-step with the model after deactivation, batch writes under internal-server failure fully reported as unprocessed, on both SDK adapters",
-                note="two keys, two tables, three batch compositions (four in thorough) and two batches that repeat a key while a failure is active; BatchGetItem only through SDK v2",
+                note="two keys, two tables, three batch compositions (four in thorough) two batches that repeat a key and one whose item holds empty containers while a failure is active; BatchGetItem only through SDK v2",
                 ref="DESIGN.md 3/C15"),
     "C18": dict(engine="E1", technique=E1,
                 text="every lifecycle history over the alphabet (closure) on table slots of one and two clients conforms to the catalogue model; isolation between tables and between clients is checked by observing every slot after every transition",
-                note="3 (quick) / 7 (thorough) valid and 3 invalid configurations, 1-2 keys per table (one item also written without the index attributes), 2-4 slots; single and batch operations on absent tables; UpdateTable with one and with two index changes (all-or-nothing)",
+                note="3 (quick) / 7 (thorough) valid and 3 invalid configurations, 1-2 keys per table (one item also written without the index attributes), 2-4 slots; single and batch operations on absent tables; an update rejected for an ill-typed index key on every table with an index; UpdateTable with one and with two index changes (all-or-nothing)",
                 ref="DESIGN.md 3/C18"),
     "C19": dict(engine="E1", technique=E1M,
                 text="in every reachable content of two tables, every batch write of 1..3 (4) requests over the slots and every batch get over every subset of slots equals the item-by-item decomposition computed by the reference model; batches of 13-25 requests that write one key several times end as list order says or are refused as a whole",
-                note="3-4 (table,key) slots, 3 actions per slot, sizes 25/26 for the service limit, 96 repeated-key runs; v1 has no BatchGetItem (finding)",
+                note="3-4 (table,key) slots, 3 actions per slot (one put variant leaves the sparse GSI both tables carry), sizes 25/26 for the service limit, 96 repeated-key runs; v1 has no BatchGetItem (finding)",
                 ref="DESIGN.md 3/C19"),
     "C02": dict(engine="E1", technique=E1M,
                 text="in every table content over the item universe (all subsets, reached by closure) every Query and Scan of the exhaustive menu returns exactly the reference selection in sort-key order (ties free), on base table, GSI and LSI, both directions, both SDK adapters",
@@ -55,7 +55,7 @@ CHECKS = {
                 ref="DESIGN.md 3/C17"),
     "C06": dict(engine="E2", technique=E2,
                 text="every atomic condition form x every path spelling x every typing of its operands (ten types and absence) and every boolean tree up to 3 (4) leaves, also with tab / newline / CR LF / double blank as white space, evaluates on the real interpreter to an outcome the reference three-valued evaluator accepts, without panic and without modifying the item",
-                note="two or three values per type (numbers less than one apart, strings and binaries in prefix relation, a byte above 127), sets in subset/overlap/permutation relation also nested in documents, names with boundary characters and dotted names behind placeholders; acceptance sets where the property is silent (DESIGN.md Appendix A); direct interpreter.Language.Match calls, each repeated on a long-lived interpreter that must agree with the fresh one (client-level wiring of conditions, filters and key conditions is exercised by C02/C05)",
+                note="two or three values per type (numbers less than one apart, strings and binaries in prefix relation, a byte above 127; operands of 130 / 258 / 1026 bytes agreeing on a long prefix), sets in subset/overlap/permutation relation also nested in documents, names with boundary characters and dotted names behind placeholders; acceptance sets where the property is silent (DESIGN.md Appendix A); direct interpreter.Language.Match calls, each repeated on a long-lived interpreter that must agree with the fresh one (client-level wiring of conditions, filters and key conditions is exercised by C02/C05)",
                 ref="DESIGN.md 3/C06"),
     "C07": dict(engine="E2", technique=E2,
                 text="every update program of one or two (thorough: three) actions over the action alphabet, on a typed item and on a key-only item, through interpreter.Language.Update and through UpdateItem of both SDK clients (existing and absent key), yields exactly the reference result (targets set, removed attributes gone, every untargeted attribute identical) or is rejected without change; never a panic",
@@ -67,7 +67,7 @@ CHECKS = {
                 ref="DESIGN.md 3/C09"),
     "C10": dict(engine="E2", technique=E2,
                 text="every attribute-value tree over the boundary leaves up to depth 2 (3) written with PutItem comes back structurally equal through GetItem, Query, Scan (also with Limit 1 and through a GSI), BatchGetItem and after an unrelated UpdateItem, in both SDK clients",
-                note="boundary leaves of every type; 140 numerals sign x mantissa x exponent part (e/E, signed, 1-3 digits) as N, in a list and in a number set; lists and maps with 0-2 children; BatchGetItem only exists in the v2 client; the v2 empty-container finding is attributed by its defect model",
+                note="the item is rewritten under the same primary and index key and read through the index again; boundary leaves of every type; 140 numerals sign x mantissa x exponent part (e/E, signed, 1-3 digits) as N, in a list and in a number set; lists and maps with 0-2 children; BatchGetItem only exists in the v2 client; the v2 empty-container finding is attributed by its defect model",
                 ref="DESIGN.md 3/C10"),
     "C12": dict(engine="E2", technique=E2,
                 text="every ordered pair of numerals of the alphabet under comparison, membership, arithmetic, set operations and as hash/range key, every 3-subset of number sort keys and pair of binary sort keys for ordering, and an untouched 38-digit attribute across every arithmetic update, judged by exact decimal arithmetic",
@@ -75,15 +75,15 @@ CHECKS = {
                 ref="DESIGN.md 3/C12"),
     "C14": dict(engine="E2", technique=E2 + " (every mutable location of every SDK value tree, one mutation per fresh client)",
                 text="for every value tree and every mutable location of its SDK v1 / v2 representation, in every input and output scenario (items, update values, batch requests, request keys, returned items, LastEvaluatedKey, the ConditionalCheckFailed item), mutating that location after the call returns leaves every later read unchanged, and returned structures are not changed by later writes",
-                note="locations are enumerated structurally (pointers, bytes, set members, list elements, map entries, v2 member structs); one fresh client per (scenario, tree, location)",
+                note="locations are enumerated structurally (pointers, bytes, set members, list elements, map entries, v2 member structs; items in the library's own representation reachable through the chain of a returned error); one fresh client per (scenario, tree, location)",
                 ref="DESIGN.md 3/C14"),
     "C16": dict(engine="E2", technique=E2 + " against the rule table of the statement",
                 text="every reserved word x letter case x bare-name position (39, incl. positions behind a decided outcome) is rejected and benign/aliased names are not; every supplied-vs-used placeholder subset relation, every key-condition shape, every batch size 1..27 and malformed write request is judged by the rule table, in both SDK clients",
-                note="573 words pinned from the pinned commit; malformed placeholder keys (non-ASCII letters and digits, bare and doubled prefix) next to used ones and in a projection expression; placeholder universe {#a,#ab,#b} x {:a,:ab,:b}, with and without any expression; two recorded findings (placeholder validation by substring, key-condition shape not validated)",
+                note="573 words pinned from the pinned commit, five spellings each (UPPER, lower, Capitalised, last letter capital, every second letter capital); malformed placeholder keys (non-ASCII letters and digits, bare and doubled prefix) next to used ones and in a projection expression; placeholder universe {#a,#ab,#b} x {:a,:ab,:b}, with and without any expression; two recorded findings (placeholder validation by substring, key-condition shape not validated)",
                 ref="DESIGN.md 3/C16"),
     "C20": dict(engine="E2", technique=E2 + " over registration sets x requests x activation configurations",
                 text="for every set of up to two registrations, every request and every activation configuration, exactly the expected callback fires and its verdict/mutation is used; unregistered conditions fall back to the built-in result, unregistered updates fail with the unsupported-feature error and leave the item unchanged; nothing fires when the native interpreter is not active",
-                note="2 tables x 4 kinds x 5 texts (whitespace variants, a character permutation, different texts); for every single registration every ordered pair of requests on ONE client (a dispatch that remembers earlier resolutions must stay exact); write conditions through PutItem and DeleteItem on stored and absent keys; quick: pairs of the same kind, thorough: all ordered pairs; 6 configurations; both SDK clients",
+                note="2 tables (one name a prefix of the other; the other table deleted and re-created before the request) x 4 kinds x 5 texts (whitespace variants, a character permutation, different texts); for every single registration every ordered pair of requests on ONE client (a dispatch that remembers earlier resolutions must stay exact); write conditions through PutItem and DeleteItem on stored and absent keys; quick: pairs of the same kind, thorough: all ordered pairs; 6 configurations; both SDK clients",
                 ref="DESIGN.md 3/C20"),
     "C11": dict(engine="E3", technique=E3 + "; supplemented by a free-running race-detector pass over the same scenario bodies",
                 text="every schedule with at most 1 (thorough: 2) preemptions of every pair of calls of the 20/23-call menu (data, batch, table management, every test helper) from three initial states, of Query/Scan through a secondary index against every call from an indexed state, of the named N-thread scenarios and of two-call threads (at most 2 preemptions), on both SDK clients: no deadlock, no panic, lockset race freedom, and an outcome equal to that of some sequential order",
